@@ -412,8 +412,9 @@ impl ExpandedField<'_> {
         let id_deserialize_with = if is_id && is_required {
             Some(quote!(#[serde(deserialize_with = "graphql_client::serde_with::deserialize_id")]))
         } else if is_id {
+            // `default`: with `deserialize_with`, serde no longer treats a missing key as `None`.
             Some(
-                quote!(#[serde(deserialize_with = "graphql_client::serde_with::deserialize_option_id")]),
+                quote!(#[serde(default, deserialize_with = "graphql_client::serde_with::deserialize_option_id")]),
             )
         } else {
             None
